@@ -192,3 +192,40 @@ Proof.
   intros H. unfold done_at. induction ds as [|d ds IH]; [cbn; lia|]. cbn [filter].
   destruct (Z.leb_spec (iend d) t), (Z.leb_spec (iend d) t'); cbn [length]; lia.
 Qed.
+
+Lemma drop_from_leaves_fewer_than_limit limit ds tc :
+  (1 <= limit)%nat -> last_start ds <= tc -> (length ds < done_at ds (t_drop_from limit ds tc) + limit)%nat.
+Proof.
+  intros Hl Hls. unfold t_drop_from.
+  destruct (fold_min_in (finish_time ds) (filter (fun t => (in_flight_at ds t <? limit)%nat) (candidates ds tc))) as [E|Hin].
+  - rewrite E. unfold done_at. rewrite (filter_all_length (fun d => iend d <=? finish_time ds) ds).
+    + lia.
+    + intros d Hd. apply Z.leb_le. apply fold_max_ge. now apply in_map.
+  - set (t := fold_right Z.min (finish_time ds) (filter (fun t => (in_flight_at ds t <? limit)%nat) (candidates ds tc))) in *.
+    apply filter_In in Hin. destruct Hin as [Hc Hf]. apply Nat.ltb_lt in Hf.
+    assert (Htc : tc <= t).
+    { unfold candidates in Hc. destruct Hc as [<-|Hc]; [lia|]. apply filter_In in Hc. destruct Hc as [_ Hc]. apply Z.leb_le in Hc. exact Hc. }
+    assert (Hs : forall d, In d ds -> istart d <= t).
+    { intros d Hd. assert (istart d <= last_start ds) by (apply fold_max_ge; now apply in_map). lia. }
+    unfold done_at. pose proof (filter_split_length (fun d => iend d <=? t) ds) as Hsp.
+    assert (Hfl : filter (fun d => negb (iend d <=? t)) ds = filter (fun d => (istart d <=? t) && (t <? iend d)) ds).
+    { apply filter_ext_in'. intros d Hd. specialize (Hs d Hd).
+      destruct (Z.leb_spec (iend d) t), (Z.leb_spec (istart d) t), (Z.ltb_spec t (iend d)); cbn; try reflexivity; lia. }
+    cbv beta in Hsp. rewrite Hfl in Hsp. unfold in_flight_at in Hf. lia.
+Qed.
+
+(* the size of F7 at the Multi level: when Multi::close returns, every listener is left with fewer than `limit` unprocessed events -
+   for every number of listeners, workload, limit >= 1 and instant of the close call *)
+Theorem multi_close_leaves_fewer_than_limit k limit durs t_close :
+  (1 <= limit)%nat ->
+  forall ds, In ds (mruns k limit durs) -> (length durs < done_at ds (m_return limit (mruns k limit durs) t_close) + limit)%nat.
+Proof.
+  intros Hl ds Hds. set (dss := mruns k limit durs) in *.
+  rewrite <- (multi_nothing_discarded k limit durs ds Hds).
+  unfold m_return. set (tc := m_cancel dss t_close).
+  assert (Hls : last_start ds <= tc). { unfold tc, m_cancel. apply fold_max_ge'. now apply in_map. }
+  pose proof (drop_from_leaves_fewer_than_limit limit ds tc Hl Hls) as H1.
+  assert (H2 : t_drop_from limit ds tc <= fold_right Z.max tc (map (fun ds0 => t_drop_from limit ds0 tc) dss)).
+  { apply fold_max_ge'. apply in_map_iff. exists ds. split; [reflexivity|exact Hds]. }
+  pose proof (done_at_mono ds _ _ H2). lia.
+Qed.
